@@ -165,7 +165,7 @@ CalcM(a, m, n) ==
 (* still reads in the masked network although export() removes the channel.                                  *)
 \* "bns" = a standalone BatchNorm (features-propagating; the PIT version keeps the channels pruned upstream at zero after
 \* the normalisation, which would otherwise turn an exact zero into the constant beta - mean*gamma/sqrt(var))
-ZeroPreservingOps == {"relu", "tanh", "silu", "drop", "id", "pool", "flat", "gsq", "bns"}
+ZeroPreservingOps == {"relu", "relu6", "tanh", "silu", "drop", "id", "pool", "flat", "gsq", "bns"}
 JoinCls(x, y) == IF x = "live" \/ y = "live" THEN "live" ELSE IF x = "const" \/ y = "const" THEN "const" ELSE "zero"
 RECURSIVE Cls(_, _, _)
 Cls(a, m, n) ==
@@ -180,6 +180,9 @@ Cls(a, m, n) ==
            [] nd.op = "cat"  -> ConcatPats([i \in 1..Len(nd.ins) |-> Cls(a, m, nd.ins[i])], 1)
            [] nd.op = "flat" -> Repeat(Cls(a, m, nd.ins[1]), Positions(a, nd.ins[1]))
            [] nd.op = "sig"  -> LET p == Cls(a, m, nd.ins[1]) IN [c \in 1..Len(p) |-> IF p[c] = "zero" THEN "const" ELSE p[c]]
+           \* log_softmax over the features couples all channels: a pruned channel leaves it data dependent
+           [] nd.op = "lsm"  -> LET p == Cls(a, m, nd.ins[1]) IN
+                                [c \in 1..Len(p) |-> IF \E x \in 1..Len(p) : p[x] = "live" THEN "live" ELSE "const"]
            [] OTHER          -> Cls(a, m, nd.ins[1])
 \* every channel that the reference dataflow says is dead must reach its consumers as "zero"
 ZeroPreservedM(a, m) ==
@@ -261,6 +264,8 @@ KF_MixedWidthGroup(a) ==
 
 \* an element-wise op that does not map 0 to 0 (sigmoid) sits on a prunable tensor
 KF_NonZeroOp(a) == \E n \in 1..N(a) : Op(a, n) = "sig" /\ Prunable(a, In1(a, n))
+\* an op that couples the channels (log_softmax over the features axis, also in plinio's propagating list) on a prunable tensor
+KF_CoupledOp(a) == \E n \in 1..N(a) : Op(a, n) = "lsm" /\ Prunable(a, In1(a, n))
 
 \* a channel concat feeds the network output directly: its prunable parts are not recognised as output-connected
 KF_CatIntoOutput(a) ==
@@ -276,7 +281,7 @@ RejectedFusion(a) ==
         \/ \E m \in 1..N(a) : m # n /\ In1(a, n) \in SeqSet(Ins(a, m))
         \/ Cardinality(CallSites(a, Owner(a, In1(a, n)))) > 1
 
-Supported(a) == ~RejectedFusion(a) /\ ~KF_NonZeroOp(a) /\ ~KF_CatIntoOutput(a) /\ ~KF_Reuse(a) /\ ~KF_DwOrphan(a) /\ ~KF_FixedInMaskedGroup(a)
+Supported(a) == ~RejectedFusion(a) /\ ~KF_NonZeroOp(a) /\ ~KF_CoupledOp(a) /\ ~KF_CatIntoOutput(a) /\ ~KF_Reuse(a) /\ ~KF_DwOrphan(a) /\ ~KF_FixedInMaskedGroup(a)
                 /\ ~KF_FixedAfterSearch(a) /\ ~KF_CatIntoAdd(a) /\ ~KF_MixedWidthGroup(a)
 
 (* ------------------------------ C09 invariants ------------------------- *)
